@@ -449,11 +449,15 @@ static void *worker_main(void *arg)
 /* wait until `period` more worker operations have finished; returns 0 when all workers are done */
 static int pace(worker_t *w, uint32_t *last)
 {
+    long ns = 200000; uint32_t seen = __atomic_load_n(&g_done_ops, __ATOMIC_RELAXED);
     for (;;) {
         if (__atomic_load_n(&g_workers_left, __ATOMIC_RELAXED) <= 0) return 0;
         uint32_t d = __atomic_load_n(&g_done_ops, __ATOMIC_RELAXED);
         if (d - *last >= w->period) { *last = d; return 1; }
-        struct timespec ts = { 0, 200000 }; nanosleep(&ts, NULL);
+        /* back off while the workers make no progress, so that a deadlocked run is idle (the driver's progress watchdog
+           looks at the CPU time of the process) */
+        if (d != seen) { seen = d; ns = 200000; } else if (ns < 50000000) ns *= 2;
+        struct timespec ts = { 0, ns }; nanosleep(&ts, NULL);
     }
 }
 
